@@ -375,25 +375,21 @@ func runLaws(c LawsCase) *vt.Outcome {
 	evals := 0
 
 	// ---- pair matrices from Comparator.Compare (all pairs, every shard: cheap)
-	M := map[bool]matrix{}      // repo
-	Mfix := map[bool]matrix{}   // repo with integer/float pairs compared exactly
-	lossyAt := map[bool]matrix{} // 1 where the pair is a lossy int/float pair
+	M := map[bool]matrix{}    // repo
+	Mfix := map[bool]matrix{} // repo with integer/float pairs compared exactly (see lossyPair)
 	for _, nm := range nullsMaxes {
 		cmpAsc := thisComparator(nm, order.Asc)
-		m, mf, ml := newMatrix(n), newMatrix(n), newMatrix(n)
+		m, mf := newMatrix(n), newMatrix(n)
 		for i := 0; i < n; i++ {
 			for j := 0; j < n; j++ {
 				r := cmpAsc.Compare(vals[i], vals[j])
 				evals++
 				m[i][j] = int8(sign(r))
-				exact, lossy := lossyPair(vals[i], vals[j], r)
+				exact, _ := lossyPair(vals[i], vals[j], r)
 				mf[i][j] = int8(sign(exact))
-				if lossy {
-					ml[i][j] = 1
-				}
 			}
 		}
-		M[nm], Mfix[nm], lossyAt[nm] = m, mf, ml
+		M[nm], Mfix[nm] = m, mf
 	}
 
 	// ---- pair laws and agreement of the single-pair interfaces (rows of this shard)
